@@ -269,17 +269,95 @@ func litFields(cl *ast.CompositeLit) map[string]ast.Expr {
 	return out
 }
 
+// chunkPrim is the single-message primitive behind ReadAt / WriteAt: the callback handed to
+// chunk, which may be a method value (c.readAt) or a function literal written in place.
+type chunkPrim struct {
+	owner  *FuncInfo // the function whose analysis holds the primitive's sites and exits
+	fn     ast.Node  // *ast.FuncDecl (owner.Decl) or the *ast.FuncLit inside owner
+	body   *ast.BlockStmt
+	recv   string // name of the clientFile variable in scope
+	pN     string // the buffer parameter
+	offN   string // the offset parameter
+	method *FuncInfo
+	call   *ast.CallExpr // the chunk call
+}
+
+// chunkPrimOf finds the chunk call of ReadAt / WriteAt and resolves its callback.
+func chunkPrimOf(r *Run, m *ServerModel, outer *FuncInfo) *chunkPrim {
+	info := m.Info
+	var out *chunkPrim
+	ast.Inspect(outer.Decl.Body, func(n ast.Node) bool {
+		c, ok := n.(*ast.CallExpr)
+		if !ok || calleeKey(info, c) != "p9.chunk" || len(c.Args) != 4 || out != nil {
+			return true
+		}
+		cb := unparen(c.Args[1])
+		cp := &chunkPrim{call: c, recv: outer.Decl.Recv.List[0].Names[0].Name}
+		var ft *ast.FuncType
+		if lit, isLit := cb.(*ast.FuncLit); isLit {
+			cp.owner, cp.fn, cp.body, ft = outer, lit, lit.Body, lit.Type
+		} else if tf := r.L.FuncOf(callee(info, &ast.CallExpr{Fun: cb})); tf != nil && tf.Decl.Body != nil && tf.Decl.Recv != nil {
+			cp.owner, cp.fn, cp.body, ft, cp.method = tf, tf.Decl, tf.Decl.Body, tf.Decl.Type, tf
+			cp.recv = tf.Decl.Recv.List[0].Names[0].Name
+		} else {
+			return true
+		}
+		var names []string
+		for _, f := range ft.Params.List {
+			for _, nm := range f.Names {
+				names = append(names, nm.Name)
+			}
+		}
+		if len(names) == 2 {
+			cp.pN, cp.offN = names[0], names[1]
+			out = cp
+		}
+		return true
+	})
+	return out
+}
+
+// exits / sites of the primitive
+func (cp *chunkPrim) exits(db *SiteDB) []*ExitRec {
+	var out []*ExitRec
+	for _, ex := range db.Exits[cp.owner] {
+		if ex.Fn == cp.fn {
+			out = append(out, ex)
+		}
+	}
+	return out
+}
+
+func (cp *chunkPrim) sites(db *SiteDB) []*Site {
+	var out []*Site
+	for _, s := range db.ByFunc[cp.owner] {
+		if s.Call != nil && cp.body.Pos() <= s.Call.Pos() && s.Call.End() <= cp.body.End() {
+			out = append(out, s)
+		}
+	}
+	return out
+}
+
 func c11Primitives(r *Run, m *ServerModel) {
 	info := m.Info
 	db := m.DB
 	norm := func(e ast.Expr) string { return strings.ReplaceAll(r.L.str(e), " ", "") }
-	if ra := r.mustFunc("r5", "p9", "clientFile.readAt"); ra != nil {
-		recv := ra.Decl.Recv.List[0].Names[0].Name
-		pN := ra.Decl.Type.Params.List[0].Names[0].Name
-		offN := ra.Decl.Type.Params.List[1].Names[0].Name
+	var raP, waP *chunkPrim
+	if o := r.mustFunc("r5", "p9", "clientFile.ReadAt"); o != nil {
+		if raP = chunkPrimOf(r, m, o); raP == nil {
+			r.undecided("r5", "readAt: the primitive behind ReadAt", o.Decl.Pos(), "ReadAt does not hand a method value or a function literal to chunk")
+		}
+	}
+	if o := r.mustFunc("r5", "p9", "clientFile.WriteAt"); o != nil {
+		if waP = chunkPrimOf(r, m, o); waP == nil {
+			r.undecided("r5", "writeAt: the primitive behind WriteAt", o.Decl.Pos(), "WriteAt does not hand a method value or a function literal to chunk")
+		}
+	}
+	if ra := raP; ra != nil {
+		recv, pN, offN := ra.recv, ra.pN, ra.offN
 		var treadOK, rreadOK bool
 		rreadVar := ""
-		ast.Inspect(ra.Decl.Body, func(n ast.Node) bool {
+		ast.Inspect(ra.body, func(n ast.Node) bool {
 			cl, ok := n.(*ast.CompositeLit)
 			if !ok {
 				return true
@@ -297,11 +375,11 @@ func c11Primitives(r *Run, m *ServerModel) {
 			}
 			return true
 		})
-		r.check(treadOK, "r5", "readAt: request", ra.Decl.Pos(), "tread{fid: c.fid, Offset: uint64(offset), Count: uint32(len(p))}", "the Tread is not {fid: c.fid, Offset: uint64(offset), Count: uint32(len(p))}")
-		r.check(rreadOK, "r5", "readAt: p is offered as the payload destination", ra.Decl.Pos(), "rread{Data: p}", "the reply object is not primed with Data: p")
+		r.check(treadOK, "r5", "readAt: request", ra.fn.Pos(), "tread{fid: c.fid, Offset: uint64(offset), Count: uint32(len(p))}", "the Tread is not {fid: c.fid, Offset: uint64(offset), Count: uint32(len(p))}")
+		r.check(rreadOK, "r5", "readAt: p is offered as the payload destination", ra.fn.Pos(), "rread{Data: p}", "the reply object is not primed with Data: p")
 		// copy when not aliased
 		okCopy := false
-		for _, s := range db.ByFunc[ra] {
+		for _, s := range ra.sites(db) {
 			if s.Call == nil {
 				continue
 			}
@@ -312,10 +390,10 @@ func c11Primitives(r *Run, m *ServerModel) {
 				}
 			}
 		}
-		r.check(okCopy, "r5", "readAt: payload copied when it does not alias p", ra.Decl.Pos(), "copy(p, Data) under &Data[0] != &p[0]", "readAt does not copy the decoded payload into p when transport.go allocated a different buffer: the caller's buffer would stay unfilled")
+		r.check(okCopy, "r5", "readAt: payload copied when it does not alias p", ra.fn.Pos(), "copy(p, Data) under &Data[0] != &p[0]", "readAt does not copy the decoded payload into p when transport.go allocated a different buffer: the caller's buffer would stay unfilled")
 		// exits
 		var okEOF, okLen bool
-		for _, ex := range db.Exits[ra] {
+		for _, ex := range ra.exits(db) {
 			if ex.Ret == nil || len(ex.Ret.Results) != 2 || ex.St.Dead {
 				continue
 			}
@@ -335,16 +413,14 @@ func c11Primitives(r *Run, m *ServerModel) {
 				}
 			}
 		}
-		r.check(okEOF, "r5", "readAt: io.EOF exactly for an empty read into a non-empty buffer", ra.Decl.Pos(), "len(Data) == 0 && len(p) > 0 → (0, io.EOF)", "io.EOF is not returned exactly under len(Data) == 0 && len(p) > 0")
-		r.check(okLen, "r5", "readAt: returns the number of bytes received", ra.Decl.Pos(), "return len(Data), nil otherwise", "readAt does not return (len(Data), nil) on the remaining paths")
+		r.check(okEOF, "r5", "readAt: io.EOF exactly for an empty read into a non-empty buffer", ra.fn.Pos(), "len(Data) == 0 && len(p) > 0 → (0, io.EOF)", "io.EOF is not returned exactly under len(Data) == 0 && len(p) > 0")
+		r.check(okLen, "r5", "readAt: returns the number of bytes received", ra.fn.Pos(), "return len(Data), nil otherwise", "readAt does not return (len(Data), nil) on the remaining paths")
 	}
-	if wa := r.mustFunc("r5", "p9", "clientFile.writeAt"); wa != nil {
-		recv := wa.Decl.Recv.List[0].Names[0].Name
-		pN := wa.Decl.Type.Params.List[0].Names[0].Name
-		offN := wa.Decl.Type.Params.List[1].Names[0].Name
+	if wa := waP; wa != nil {
+		recv, pN, offN := wa.recv, wa.pN, wa.offN
 		okReq := false
 		rwVar := ""
-		ast.Inspect(wa.Decl.Body, func(n ast.Node) bool {
+		ast.Inspect(wa.body, func(n ast.Node) bool {
 			cl, ok := n.(*ast.CompositeLit)
 			if !ok {
 				return true
@@ -361,14 +437,14 @@ func c11Primitives(r *Run, m *ServerModel) {
 			}
 			return true
 		})
-		r.check(okReq, "r5", "writeAt: request", wa.Decl.Pos(), "twrite{fid: c.fid, Offset: uint64(offset), Data: p}", "the Twrite is not {fid: c.fid, Offset: uint64(offset), Data: p}")
+		r.check(okReq, "r5", "writeAt: request", wa.fn.Pos(), "twrite{fid: c.fid, Offset: uint64(offset), Data: p}", "the Twrite is not {fid: c.fid, Offset: uint64(offset), Data: p}")
 		okRet := false
-		for _, ex := range db.Exits[wa] {
+		for _, ex := range wa.exits(db) {
 			if ex.Ret != nil && len(ex.Ret.Results) == 2 && norm(ex.Ret.Results[1]) == "nil" {
 				okRet = norm(ex.Ret.Results[0]) == "int("+rwVar+".Count)"
 			}
 		}
-		r.check(okRet, "r5", "writeAt: returns the server's count", wa.Decl.Pos(), "return int(rwrite.Count), nil", "writeAt does not return the count the server reported")
+		r.check(okRet, "r5", "writeAt: returns the server's count", wa.fn.Pos(), "return int(rwrite.Count), nil", "writeAt does not return the count the server reported")
 	}
 }
 
@@ -377,67 +453,63 @@ func c11Primitives(r *Run, m *ServerModel) {
 func c11Delegation(r *Run, m *ServerModel) {
 	info := m.Info
 	// --- r1 delegation ---
-	for _, pair := range [][2]string{{"ReadAt", "readAt"}, {"WriteAt", "writeAt"}} {
+	p9 := r.L.Pkg("p9")
+	prims := map[string]*chunkPrim{} // "tread" / "twrite" -> the primitive that may build it
+	for _, pair := range [][2]string{{"ReadAt", "tread"}, {"WriteAt", "twrite"}} {
 		fi := r.mustFunc("r1", "p9", "clientFile."+pair[0])
 		if fi == nil {
 			continue
 		}
+		cp := chunkPrimOf(r, m, fi)
 		okDel := false
-		if len(fi.Decl.Body.List) == 1 {
-			if ret, ok := fi.Decl.Body.List[0].(*ast.ReturnStmt); ok && len(ret.Results) == 1 {
-				if c, ok := unparen(ret.Results[0]).(*ast.CallExpr); ok && calleeKey(info, c) == "p9.chunk" && len(c.Args) == 4 {
-					a0 := r.L.str(c.Args[0])
-					a1 := r.L.str(c.Args[1])
-					recv := fi.Decl.Recv.List[0].Names[0].Name
-					var pnames []string
-					for _, f := range fi.Decl.Type.Params.List {
-						for _, nm := range f.Names {
-							pnames = append(pnames, nm.Name)
-						}
+		what := "a method value or literal"
+		if cp != nil && len(fi.Decl.Body.List) == 1 {
+			if ret, ok := fi.Decl.Body.List[0].(*ast.ReturnStmt); ok && len(ret.Results) == 1 && unparen(ret.Results[0]) == ast.Expr(cp.call) {
+				c := cp.call
+				recv := fi.Decl.Recv.List[0].Names[0].Name
+				var pnames []string
+				for _, f := range fi.Decl.Type.Params.List {
+					for _, nm := range f.Names {
+						pnames = append(pnames, nm.Name)
 					}
-					okDel = a0 == recv+".client.payloadSize" && a1 == recv+"."+pair[1] && len(pnames) == 2 && r.L.str(c.Args[2]) == pnames[0] && r.L.str(c.Args[3]) == pnames[1]
 				}
+				okCb := cp.method == nil || r.L.str(unparen(c.Args[1]).(*ast.SelectorExpr).X) == recv
+				okDel = r.L.str(c.Args[0]) == recv+".client.payloadSize" && okCb && len(pnames) == 2 && r.L.str(c.Args[2]) == pnames[0] && r.L.str(c.Args[3]) == pnames[1]
 			}
+			if cp.method != nil {
+				what = "c." + cp.method.Decl.Name.Name
+			} else {
+				what = "func(p, offset) {…}"
+			}
+			prims[pair[1]] = cp
 		}
-		r.check(okDel, "r1", "clientFile."+pair[0]+" delegates to chunk", fi.Decl.Pos(), "return chunk(c.client.payloadSize, c."+pair[1]+", p, offset)", pair[0]+" is not 'return chunk(c.client.payloadSize, c."+pair[1]+", p, offset)': requests would not be split by the negotiated payload size")
-	}
-	// readAt/writeAt referenced only as chunk's argument in ReadAt/WriteAt
-	p9 := r.L.Pkg("p9")
-	for _, nm := range []string{"readAt", "writeAt"} {
-		target := r.L.Func("p9", "clientFile."+nm)
-		if target == nil {
-			r.undecided("r1", "clientFile."+nm, token.NoPos, "not found")
-			continue
-		}
-		var bad []string
-		for _, f := range p9.Syntax {
-			ast.Inspect(f, func(n ast.Node) bool {
-				sel, ok := n.(*ast.SelectorExpr)
-				if !ok || info.Uses[sel.Sel] != types.Object(target.Obj) {
-					return true
-				}
-				fd := r.L.enclosingDecl(sel)
-				want := "ReadAt"
-				if nm == "writeAt" {
-					want = "WriteAt"
-				}
-				okUse := false
-				if c, ok := r.L.parent(sel).(*ast.CallExpr); ok && calleeKey(info, c) == "p9.chunk" && len(c.Args) == 4 && c.Args[1] == ast.Expr(sel) && fd != nil && fd.Name.Name == want {
-					okUse = true
-				}
-				if !okUse {
+		r.check(okDel, "r1", "clientFile."+pair[0]+" delegates to chunk", fi.Decl.Pos(), "return chunk(c.client.payloadSize, "+what+", p, offset)", pair[0]+" is not 'return chunk(c.client.payloadSize, <single-message primitive>, p, offset)': requests would not be split by the negotiated payload size")
+		// a named primitive is referenced only as chunk's argument here
+		if cp != nil && cp.method != nil {
+			target := cp.method
+			var bad []string
+			for _, f := range p9.Syntax {
+				ast.Inspect(f, func(n ast.Node) bool {
+					sel, ok := n.(*ast.SelectorExpr)
+					if !ok || info.Uses[sel.Sel] != types.Object(target.Obj) {
+						return true
+					}
+					if unparen(cp.call.Args[1]) == ast.Expr(sel) {
+						return true
+					}
 					where := "?"
-					if fd != nil {
+					if fd := r.L.enclosingDecl(sel); fd != nil {
 						where = fd.Name.Name
 					}
 					bad = append(bad, where+" at "+r.L.relPos(sel.Pos()))
-				}
-				return true
-			})
+					return true
+				})
+			}
+			nm := target.Decl.Name.Name
+			r.check(len(bad) == 0, "r1", "clientFile."+nm+" is reached only through chunk", target.Decl.Pos(), "single-message primitive used only as chunk's callback", "the single-message primitive "+nm+" is used directly in "+strings.Join(bad, ", ")+": a request larger than the payload size would go out unsplit")
 		}
-		r.check(len(bad) == 0, "r1", "clientFile."+nm+" is reached only through chunk", target.Decl.Pos(), "single-message primitive used only as chunk's callback", "the single-message primitive "+nm+" is used directly in "+strings.Join(bad, ", ")+": a request larger than the payload size would go out unsplit")
 	}
-	// tread/twrite literals only inside readAt/writeAt
+	// tread/twrite literals only inside the primitives
 	for _, f := range p9.Syntax {
 		ast.Inspect(f, func(n ast.Node) bool {
 			cl, ok := n.(*ast.CompositeLit)
@@ -448,9 +520,9 @@ func c11Delegation(r *Run, m *ServerModel) {
 			var want string
 			switch {
 			case strings.HasSuffix(ts, "p9.tread"):
-				want = "readAt"
+				want = "tread"
 			case strings.HasSuffix(ts, "p9.twrite"):
-				want = "writeAt"
+				want = "twrite"
 			default:
 				return true
 			}
@@ -458,9 +530,10 @@ func c11Delegation(r *Run, m *ServerModel) {
 			if fd == nil || fd.Name.Name == "init" || len(cl.Elts) == 0 {
 				return true // registry constructors
 			}
-			r.check(fd.Name.Name == want, "r1", fmt.Sprintf("%s: builds a %s request", fd.Name.Name, want[:len(want)-2]), cl.Pos(), "constructed in "+want, "a "+ts+" request is built in "+fd.Name.Name+", outside the chunked path")
+			cp := prims[want]
+			inside := cp != nil && cp.body.Pos() <= cl.Pos() && cl.End() <= cp.body.End()
+			r.check(inside, "r1", fmt.Sprintf("%s: builds a %s request", fd.Name.Name, want), cl.Pos(), "constructed in the primitive handed to chunk", "a "+ts+" request is built in "+fd.Name.Name+", outside the chunked path")
 			return true
 		})
 	}
-
 }
